@@ -28,7 +28,7 @@ def RealOf(f):
 BUILTIN_NAMES = {'len', 'min', 'max', 'int', 'range', 'enumerate', 'list', 'callable', 'isinstance', 'hex', 'str',
                  'bool', 'abs', 'print', 'bytes', 'bytearray', 'sum', 'float', 'tuple', 'dict'}
 SPEC_NAMES = {'old', 'implies', 'forall', 'exists', 'ite', 'octets', 'bits', 'seq', 'at_entry', 'unchanged',
-              'same_elems', 'same_list', 'has_keys', 'table_same_except', 'iff', 'keys_forall', 'typeis', 'fresh_list', 'count', 'select', 'intdiv',
+              'same_elems', 'same_list', 'owner', 'has_keys', 'table_same_except', 'iff', 'keys_forall', 'typeis', 'fresh_list', 'count', 'select', 'intdiv',
               'is_none', 'rep', 'concat', 'at_head', 'has_key', 'no_alias', 'allocated_before', 'steps', 'sumlen', 'fn', 'method'}
 EXC_NAMES = set(EXC_PARENTS) | {'RuntimeWarning'}
 
@@ -802,7 +802,13 @@ class Interp:
     def e_BoolOp(self, node):
         st = self.st
         if st.spec:
-            ts = [self.gtruth(v) for v in node.values]
+            saved_ctx = st.conj_ctx
+            if not isinstance(node.op, ast.And):
+                st.conj_ctx = False
+            try:
+                ts = [self.gtruth(v) for v in node.values]
+            finally:
+                st.conj_ctx = saved_ctx
             return VBool(z3.simplify(z3.And(ts) if isinstance(node.op, ast.And) else z3.Or(ts)))
         # code mode: short-circuit, result is the deciding operand
         v = None
@@ -819,7 +825,14 @@ class Interp:
         return v
 
     def e_UnaryOp(self, node):
-        return self.unop(node.op, self.eval(node.operand))
+        st = self.st
+        saved_ctx = st.conj_ctx
+        st.conj_ctx = False
+        try:
+            v = self.eval(node.operand)
+        finally:
+            st.conj_ctx = saved_ctx
+        return self.unop(node.op, v)
 
     def e_BinOp(self, node):
         a = self.eval(node.left)
@@ -830,7 +843,12 @@ class Interp:
         st = self.st
         c = self.truth(self.eval(node.test))
         if st.spec:
-            return self.spec_ite(c, node.body, node.orelse)
+            saved_ctx = st.conj_ctx
+            st.conj_ctx = False
+            try:
+                return self.spec_ite(c, node.body, node.orelse)
+            finally:
+                st.conj_ctx = saved_ctx
         if st.branch_bool(c, 'ifexp'):
             return self.eval(node.body)
         return self.eval(node.orelse)
@@ -930,11 +948,17 @@ class Interp:
             return VRef(r, '{}')
         r = st.new_ref()
         rec = VRef(r, None)
+        present = set()
         for k, vn in zip(node.keys, node.values):
             kv = self.eval(k)
             if not isinstance(kv, VStr):
                 raise Unsupported('dict literal with non-string-constant key (line %s)' % st.cur_line)
             self.rec_store(rec, kv.s, self.eval(vn))
+            present.add(kv.s)
+        # a new dict holds exactly the keys of the literal: clear the presence flag of every other declared key
+        for k in sorted(set(kk for (c, kk) in self.schema.keys)):
+            if k not in present:
+                st.hset('k:%s#has' % k, z3.IntSort(), r, z3.IntVal(0))
         return rec
 
     def e_JoinedStr(self, node):
@@ -1144,6 +1168,9 @@ class Interp:
         v = self.coerce_store(T_, v)
         field_store(st, 'k:' + key, T_, rec.t, v)
         st.hset('k:%s#has' % key, z3.IntSort(), rec.t, z3.IntVal(1))
+        if isinstance(v, VList):
+            # ghost: the record a list was last stored into (ownership, used by class invariants)
+            st.hset('G:own', z3.IntSort(), v.t, rec.t)
 
     def coerce_store(self, T_, v):
         """conversions applied when a value is stored into a typed slot"""
@@ -1223,6 +1250,7 @@ class Interp:
                 if not st.valid(has):
                     if not st.branch_bool(has, 'tablekey'):
                         raise PyRaise(VExc('KeyError', (key,)))
+                self.eng.instantiate_kf(self, obj, k)
             return table_get(st, obj, k)
         if isinstance(obj, VRef):
             if obj.old:
